@@ -128,6 +128,8 @@ PropRead(ro) ==
   \cup Cond("decompress_if_needed-panics", ro.din.r \in {"false", "true", "err"})
   \cup Cond("is_initial-panics", ro.init.r \in {"ok", "skip"})
   \cup Cond("chunks-iter-panics-or-never-ends", ro.ci.r \in {"ok", "skip"})
+  \* size_hint / len / clone+count / collect / extend on the same chunk area never panic
+  \cup Cond("chunks-iter-size_hint-len-collect-panics", ro.ci.r = "ok" => ro.ci.api.r = "ok")
   \cup Cond("slice-out-of-bounds", ro.inb)
   \cup Cond("write-outside-scratch-buffer", ro.canary)
 
@@ -149,6 +151,12 @@ DetailRead(v, ro) ==
                       THEN IF ro.ci.r # "ok" THEN {"chunk-iteration-missing"}
                            ELSE LET it == Chunks(v, exp.p.data, exp.p.nc) IN
                                 Cond("chunk-list-differs", ro.ci.list = it.chunks)
+                                \cup Cond("chunks-iter-size-differs",
+                                          ro.ci.api.r = "ok" =>
+                                            LET n == Len(it.chunks) a == ro.ci.api IN
+                                            /\ a.lo = n /\ a.hi = n /\ a.len = n /\ a.count = n
+                                            /\ a.collect = n /\ a.extend = n
+                                            /\ a.end_lo = 0 /\ a.end_hi = 0 /\ a.bounded)
                                 \cup Cond("chunk-warnings-differ", SeqToSet(ro.ci.w) = it.w)
                       ELSE {})
            ELSE {})
